@@ -81,7 +81,8 @@ def build_base(kind, case):
     raise ValueError(kind)
 
 
-WORDS = [[], ["a"], ["b"], ["a", "b"], ["a", "a"], ["b", "a", "b"]]
+WORDS = [[], ["a"], ["b"], ["a", "b"], ["a", "a"], ["b", "a", "b"], ["a", "b", "a"], ["a", "b", "b"], ["a", "a", "b"],
+         ["b", "b"], ["a", "b", "a", "b"]]
 
 
 def kind_of(obj):
@@ -372,7 +373,7 @@ def run_history(c, stats):
     pool = base_pool(rng)
     for e in pool:
         e["obj"] = build_base(e["origin"][1], e["origin"][2])
-        e["kind"] = e["origin"][1]
+        e["kind"] = {"fcfg": "cfg"}.get(e["origin"][1], e["origin"][1])      # a feature grammar is queried as a grammar
         e["base"] = True
     events = []
     nbase = len(pool)
@@ -407,7 +408,7 @@ def run_history(c, stats):
                 if not OPS.get(k):
                     continue
                 name, other_kind = rng.choice(OPS[k])
-                arg = rng.randrange(6)
+                arg = rng.randrange(11)
                 oi = []
                 if other_kind:
                     cands = [i for i, e in enumerate(pool) if e["kind"] == other_kind]
@@ -583,7 +584,7 @@ def targeted(rng, n):
                     {"target": 10, "op": "is_equivalent_to", "others": [0], "arg": 0}, {"target": "R1", "op": "accepts", "arg": 1},
                     {"target": 9, "op": "minimize", "arg": 0}, {"target": "R3", "op": "accepts", "arg": 1}])
         # feature grammar: the same and other words asked again and again of one object (chart / lexicon state)
-        ws = [rng.randrange(6) for _ in range(10)]
+        ws = [rng.randrange(11) for _ in range(12)]
         out.append([{"target": 11, "op": "contains", "arg": a} for a in ws + ws[:4]])
         # an automaton edited by epsilon moves between queries (closures computed before the edit)
         out.append([{"target": 0, "op": "accepts", "arg": 3}, {"target": 0, "op": "to_deterministic", "arg": 0},
@@ -609,6 +610,15 @@ def plan(tier, rng, sl, nslices, stats):
         seed = rng.randrange(1 << 30)
         for script in targeted(random.Random(seed), 1):
             yield {"seed": seed, "script": script}
+    for rep in range(cfg["targeted"] * 40):
+        # many feature grammars (one per seed), each asked a run of words with repeats
+        seed = rng.randrange(1 << 30)
+        yield {"seed": seed, "script": fcfg_scripts(random.Random(seed))}
+
+
+def fcfg_scripts(rng):
+    ws = [rng.randrange(11) for _ in range(14)]
+    return [{"target": 11, "op": "contains", "arg": a} for a in ws + ws[:5]]
 
 
 def run_case(c, stats):
